@@ -202,6 +202,26 @@ func (env *vEnv) checkStateC03(sp *vSpec, label string) {
 			}
 		}
 		verifrt.Assert(verifCountKeys(rolesIdx.Bucket) == wantKeys, label+": set index has no keys for unheld values")
+		// the same through the read-index API
+		for i := range sp.slots {
+			s := &sp.slots[i]
+			if s.present && len(s.name) > 0 {
+				verifrt.Assert(bytes.Equal(env.emp.idxName.Read(tx, []byte(s.name)), []byte(vIds[i])), label+": ReadIndex.Read maps the held value to its holder")
+			}
+		}
+		nKeys := 0
+		env.emp.idxRoles.ReadKeys(tx, func([]byte) { nKeys++ })
+		verifrt.Assert(nKeys == wantKeys, label+": SetReadIndex.ReadKeys lists exactly the held values")
+		for r, rn := range vRoleNames {
+			nHolders, wantHolders := 0, 0
+			for i := range sp.slots {
+				if sp.slots[i].present && sp.slots[i].roles[r] {
+					wantHolders++
+				}
+			}
+			env.emp.idxRoles.Read(tx, []byte(rn), func([]byte) { nHolders++ })
+			verifrt.Assert(nHolders == wantHolders, label+": SetReadIndex.Read lists exactly the holders of a value")
+		}
 	})
 }
 
